@@ -17,6 +17,9 @@
   `enc value`".
 -/
 import EnrVerif.Proofs.AccessorLemmas
+import EnrVerif.Model.Strings
+import EnrVerif.Proofs.Utf8Lemmas
+import EnrVerif.Proofs.DecodeLemmas
 
 namespace EnrVerif
 
@@ -408,5 +411,57 @@ theorem C14_builder_id {S : Scheme} (hL : S.Lawful) {b : Builder} {pk : S.PK} {o
 #print axioms C14_builder_reads_back_port
 #print axioms C14_builder_reads_back_ip
 #print axioms C14_builder_id
+
+
+/-! ### the `String`-valued accessors (`from_utf8_lossy`) -/
+
+/-- `id()` of a valid record is the string "v4" -/
+theorem C14_idString_valid (S : Scheme) (r : Record) (h : Valid S r) : r.idString = some vV4 := by
+  unfold Record.idString
+  rw [getBytes_kId_of_lookup r h.id_v4]
+  simp only [Option.map_some]
+  congr 1
+
+/-- the lossy conversion is the identity on well-formed UTF-8 (in particular on ASCII), so `id()`
+    and `client_info()` return exactly the stored strings whenever those are well-formed -/
+theorem C14_clientInfoStrings_of_valid_utf8 (r : Record) (a b : Bytes) (c : Option Bytes)
+    (h : r.clientInfo = some (a, b, c)) (ha : utf8Valid a = true) (hb : utf8Valid b = true)
+    (hc : ∀ x, c = some x → utf8Valid x = true) : r.clientInfoStrings = some (a, b, c) := by
+  unfold Record.clientInfoStrings
+  rw [h]
+  simp only [Option.map_some, utf8Lossy_of_valid a ha, utf8Lossy_of_valid b hb]
+  cases c with
+  | none => rfl
+  | some x => simp only [Option.map_some, utf8Lossy_of_valid x (hc x rfl)]
+
+/-- whatever is stored, the reported strings are well-formed UTF-8 -/
+theorem C14_strings_wellformed (r : Record) :
+    (∀ i, r.idString = some i → utf8Valid i = true) ∧
+    (∀ a b c, r.clientInfoStrings = some (a, b, c) →
+      utf8Valid a = true ∧ utf8Valid b = true ∧ ∀ x, c = some x → utf8Valid x = true) := by
+  constructor
+  · intro i hi
+    unfold Record.idString at hi
+    cases hid : r.id with
+    | none => rw [hid] at hi; simp at hi
+    | some v => rw [hid] at hi; simp only [Option.map_some, Option.some.injEq] at hi; rw [← hi]; exact utf8Lossy_valid v
+  · intro a b c hc
+    unfold Record.clientInfoStrings at hc
+    cases hci : r.clientInfo with
+    | none => rw [hci] at hc; simp at hc
+    | some t =>
+      obtain ⟨a0, b0, c0⟩ := t
+      rw [hci] at hc
+      simp only [Option.map_some, Option.some.injEq, Prod.mk.injEq] at hc
+      obtain ⟨rfl, rfl, rfl⟩ := hc
+      refine ⟨utf8Lossy_valid a0, utf8Lossy_valid b0, ?_⟩
+      intro x hx
+      cases c0 with
+      | none => simp at hx
+      | some y => simp only [Option.map_some, Option.some.injEq] at hx; rw [← hx]; exact utf8Lossy_valid y
+
+#print axioms C14_idString_valid
+#print axioms C14_clientInfoStrings_of_valid_utf8
+#print axioms C14_strings_wellformed
 
 end EnrVerif
